@@ -80,6 +80,14 @@ def gen_lookup(rng, tier):
             if rng.random() < 0.3:
                 labels = labels[: rng.randint(0, len(labels))]
         yield {"table": tbl, "vars": vs, "samples": samples, "labels": labels}
+    # a strand with more blocks on one chromosome than a 16-bit index can address (dense recombination over many
+    # generations): queries on and around block 65535/65536 and at the very end
+    for _ in range(1 if tier == "quick" else 3):
+        nb = rng.choice([65600, 70000])
+        big = [[LABELS[i % 3], "1", 10 * (i + 1), "1.0"] for i in range(nb)]
+        small = [[LABELS[0], "1", 10 * nb, "1.0"]]
+        qs = [10 * k + d for k in (1, 2, 65535, 65536, 65537, rng.randint(65538, nb - 1), nb) for d in (-1, 0)]
+        yield {"table": [{"name": "S1", "s1": big, "s2": small}, {"name": "S2", "s1": small, "s2": small}], "vars": [["1", p] for p in qs], "samples": rng.choice([None, ["S2", "S1"]]), "labels": None}
 
 
 def build(tbl, fname="x.bp"):
